@@ -2225,10 +2225,18 @@ func (r *Raft) isMember(id string) bool {
 	return ok
 }
 
-// isSingleServerCluster returns true if the current configuration only contains
-// this node as a voting member.
+// isSingleServerCluster returns true if this node is the only voting member
+// of the current configuration. The configuration may contain other nodes
+// that are not voting members - they do not take part in elections and are not
+// considered when the leader advances the commit index or confirms its leadership.
 func (r *Raft) isSingleServerCluster() bool {
-	return len(r.configuration.Members) == 1 && r.configuration.IsVoter[r.id]
+	voters := 0
+	for _, isVoter := range r.configuration.IsVoter {
+		if isVoter {
+			voters++
+		}
+	}
+	return voters == 1 && r.configuration.IsVoter[r.id]
 }
 
 // pendingConfigurationChange returns true if the current configuration
